@@ -40,12 +40,19 @@ def bind (x : String) (v : V) (env : Env) : Env :=
   | .struct fs => (x, v) :: ((fs.map fun fw => (x ++ "." ++ fw.1, fw.2)) ++ env)
   | _ => (x, v) :: env
 
+/-- A package-level map literal, keyed by the integer components of its key. A struct-valued map
+    is given field by field (all fields are integers in the code at hand). -/
+inductive MapTable where
+  | strs (t : List (List Int × Str))
+  | ints (t : List (List Int × Int))
+  | structs (fields : List (String × List (List Int × Int)))
+
 structure Ctx where
   u : Uni
   /-- named constants (`ModShift`, `vaxis.KeyTab`, `unicode.MaxRune`, …) -/
   consts : Env
-  /-- package-level maps: name ↦ (zero value, entries keyed by the integer components of the key) -/
-  maps : List (String × (V × List (List Int × V)))
+  /-- package-level maps -/
+  maps : List (String × MapTable)
   /-- package-level slices that are ranged over -/
   slices : List (String × List V)
   /-- struct types: field names with zero values, in declaration order -/
@@ -139,18 +146,21 @@ def V.asKey : V → Option (List Int)
   | .struct fs => fs.foldr (fun fw acc => match fw.2, acc with | .int n, some l => some (n :: l) | _, _ => none) (some [])
   | _ => none
 
-def lookupKey (k : List Int) : List (List Int × V) → Option V
+def lookupKey {α : Type} (k : List Int) : List (List Int × α) → Option α
   | [] => none
   | (k', v) :: rest => if k = k' then some v else lookupKey k rest
 
-/-- `m[k]` on a package-level map: `(value or zero, ok)`. -/
-def mapIndex (m : V × List (List Int × V)) (k : V) : V :=
+/-- `m[k]` on a package-level map: `(value or zero value, ok)`. -/
+def mapIndex (m : MapTable) (k : V) : V :=
   match k.asKey with
   | none => .err "map key"
   | some key =>
-    match lookupKey key m.2 with
-    | some v => .tup [v, .bool true]
-    | none => .tup [m.1, .bool false]
+    match m with
+    | .strs t => .tup [.str ((lookupKey key t).getD []), .bool (lookupKey key t).isSome]
+    | .ints t => .tup [.int ((lookupKey key t).getD 0), .bool (lookupKey key t).isSome]
+    | .structs fields =>
+      .tup [.struct (fields.map fun ft => (ft.1, V.int ((lookupKey key ft.2).getD 0))),
+            .bool (match fields with | ft :: _ => (lookupKey key ft.2).isSome | [] => false)]
 
 def listIndex (a i : V) : V :=
   match a, i with
